@@ -306,7 +306,7 @@ def configs(tier: str) -> list[tuple[int, int]]:
 
 def plan(tier: str) -> list[dict]:
     cfgs = configs(tier)
-    per = 4 if tier == "quick" else 8
+    per = 4 if tier == "quick" else 60
     shards = 4 if tier == "quick" else 16
     out = [{"configs": cfgs[k::shards], "histories": per, "cost": 4} for k in range(shards)]
     return out
